@@ -628,6 +628,11 @@ func (x *Exec) evalCall(env *SpecEnv, c *ast.CallExpr) specVal {
 				} else if len(facts) > 0 {
 					body = fmt.Sprintf("(=> (and %s) %s)", strings.Join(facts, " "), body)
 				}
+				if kw == "forall" && strings.HasPrefix(body, "(forall ((") {
+					// forall x. forall y. B  ==  forall x y. B (one quantifier: a trigger given for the
+					// inner one can then mention both variables)
+					return specVal{term: fmt.Sprintf("(forall ((%s %s) %s", q, vc.sortOf(ty), body[len("(forall ("):]), typ: tBool}
+				}
 				return specVal{term: fmt.Sprintf("(%s ((%s %s)) %s)", kw, q, vc.sortOf(ty), body), typ: tBool}
 			}
 			return env.fail("quantifier needs (i, lo, hi, body) or (x, T, body)")
@@ -692,6 +697,27 @@ func (x *Exec) evalCall(env *SpecEnv, c *ast.CallExpr) specVal {
 				return env.fail("bad type %s", exprString(c.Args[1]))
 			}
 			return specVal{term: fmt.Sprintf("(and ((_ is ibox) %s) (= (itag %s) %d))", v.term, v.term, vc.typeTag(ty)), typ: tBool}
+		case "G_trigger":
+			// $trigger(body, t1, t2, ...): body, to be instantiated only where all of t1, t2, ... occur
+			// (an SMT multi-pattern for the enclosing forall)
+			if len(c.Args) < 2 {
+				return env.fail("$trigger needs (body, term, ...)")
+			}
+			body := x.evalBool(env, c.Args[0])
+			var pats []string
+			for _, a := range c.Args[1:] {
+				pats = append(pats, x.evalSpec(env, a).term)
+			}
+			return specVal{term: fmt.Sprintf("(! %s :pattern (%s))", body, strings.Join(pats, " ")), typ: tBool}
+		case "G_ite":
+			// $ite(c, a, b): a if c else b
+			if len(c.Args) != 3 {
+				return env.fail("$ite needs (condition, then, else)")
+			}
+			cnd := x.evalBool(env, c.Args[0])
+			a := x.evalSpec(env, c.Args[1])
+			b := x.evalSpec(env, c.Args[2])
+			return specVal{term: fmt.Sprintf("(ite %s %s %s)", cnd, a.term, b.term), typ: a.typ}
 		case "G_upd":
 			// $upd(a, i, v): the array a with element i replaced by v (ghost arrays)
 			if len(c.Args) != 3 {
